@@ -3,7 +3,7 @@
 From Coq Require Import String List NArith Bool.
 From J5V.lib Require Import Outcome Strcase.
 From J5V.model Require Import J5sAst Desc J5sWalk J5sLink J5sConvert J5sContract J5sValid J5sEdit J5sCorr.
-From J5V.proofs Require Import J5sProofs J5sContractProofs J5sEditProofs J5sWitnessProofs.
+From J5V.proofs Require Import J5sProofs J5sContractProofs J5sEditProofs J5sExtProofs J5sWitnessProofs.
 Import ListNotations.
 Local Open Scope N_scope.
 
@@ -37,6 +37,31 @@ Theorem C13_append_option_prefix : forall screaming name nm pfx opts o,
             snd v = N.of_nat (length (en_vals (cv_enum screaming name (mkEnum nm pfx opts)))).
 Proof. intros screaming. exact (cv_enum_snoc screaming screaming screaming). Qed.
 Print Assumptions C13_append_option_prefix.
+
+(* every append edit, and every sequence of append edits (induction over the edit list:
+   fold_left), extends the source file in the sense of J5sEdit.file_src_ext *)
+Theorem C13_edit_sequence_extends : forall es f, edits_ok es f ->
+  file_src_ext f (fold_left (fun g e => edit_file e g) es f).
+Proof. exact edit_sequence_ext. Qed.
+Print Assumptions C13_edit_sequence_extends.
+
+(* main theorem, per source file, at the level of ConvertJ5File (before the link step), for every
+   name conversion: if the file converts before and after a sequence of append edits - in
+   environments where every reference that resolved before still resolves to the same type -
+   then every previously generated file, message, field (name, JSON name, number, type, label,
+   optionality, type name), nested message, enum value (name, number), service and method is
+   unchanged: the old descriptors embed into the new ones (files_ext) *)
+Theorem C13_append_edits_preserve : forall snake camel screaming exports exports' f es D D',
+  edits_ok es f ->
+  (forall im, env_le (mkEnv (j5s_pkg f) im exports) (mkEnv (j5s_pkg f) im exports')) ->
+  cv_file snake camel screaming exports f = Ok D ->
+  cv_file snake camel screaming exports' (fold_left (fun g e => edit_file e g) es f) = Ok D' ->
+  files_ext D D'.
+Proof.
+  intros snake camel screaming exports exports' f es D D' Hok Hle H H'.
+  exact (cv_file_ext snake camel screaming exports exports' f _ D D' (edit_sequence_ext es f Hok) Hle H H').
+Qed.
+Print Assumptions C13_append_edits_preserve.
 
 (* the property at full strength: for every valid package and every sequence of append edits
    (fold_left over the list) that leaves it valid, the edited package compiles and every
